@@ -220,7 +220,7 @@ def fact_cases(draw, tier):
     return {"m": m, "n": n, "seed": draw(gen.seeds),
             "sfam": draw(st.sampled_from(["geometric", "clustered", "repeated", "gapped", "lowrank", "gauss", "smallint"])),
             "ratio": draw(st.sampled_from([0.7, 0.3, 0.1, 1e-2, 1e-3])), "rk": draw(st.integers(1, q)),
-            "scale10": draw(st.sampled_from([0, 0, 3, -3, 6, -6])),
+            "scale10": draw(st.sampled_from([0, 0, 3, -3, 6, -6, 9, -9, 12, -12])),
             "emode": draw(st.sampled_from(["log", "adjacent"])), "log10e": draw(st.floats(-14, 0.3, allow_nan=False)),
             "qsel": draw(st.integers(0, 30)), "side": draw(st.sampled_from([-1, 1])),
             "cap": draw(st.sampled_from(["none", "none", "int", "float", "one"])), "capv": draw(st.integers(1, 8)),
@@ -340,7 +340,87 @@ def prop_fact(case, ctx):
     ctx.nontrivial(q < full or case["emode"] == "adjacent")
 
 
+# ------------------------------------------------------------------------------------------- exact ties of the tail test
+
+# multisets of small integer singular values whose tails contain perfect squares: tail^2 == e^2 holds exactly in binary64
+TIE_SPECTRA = [[5, 4, 3], [13, 12, 5], [10, 8, 6], [8, 2, 2, 2, 2], [3, 2, 2, 1], [17, 15, 8], [7, 4, 4, 1], [9, 6, 6, 3], [6, 3, 2, 2, 2, 2, 1],
+               [5, 5, 4, 3], [25, 24, 7], [4, 2, 2, 2, 2], [12, 4, 3], [15, 12, 9], [2, 1, 1, 1, 1]]
+
+
+@st.composite
+def tie_cases(draw, tier):
+    return {"spec": draw(st.sampled_from(TIE_SPECTRA)), "pow2": draw(st.integers(-40, 40)), "q": draw(st.integers(0, 8)),
+            "pad_rows": draw(st.integers(0, 3)), "pad_cols": draw(st.integers(0, 3)), "perm_seed": draw(gen.seeds),
+            "rel": draw(st.booleans()), "give_to": draw(st.sampled_from(["m", "l", "r"])), "routine": draw(st.sampled_from(["skeleton", "svd", "ttsvd"])),
+            "off": draw(st.sampled_from([0, 0, 0, 1, -1]))}
+
+
+def prop_ties(case, ctx):
+    """A signed permutation of diag(s) has singular values s exactly; with integer s the tail energies are exact integers, so
+    'smallest size whose discarded tail energy is <= e' is decidable without tolerance, including e exactly AT a threshold."""
+    sv = case["spec"]
+    k = len(sv)
+    rng = np.random.default_rng(case["perm_seed"])
+    m, n = k + case["pad_rows"], k + case["pad_cols"]
+    A = np.zeros((m, n))
+    rows, cols = rng.permutation(m)[:k], rng.permutation(n)[:k]
+    for j in range(k):
+        A[rows[j], cols[j]] = sv[j] * (1 if rng.integers(0, 2) else -1)
+    scale = 2.0 ** case["pow2"]
+    A = A * scale
+    s_lib = np.linalg.svd(A, compute_uv=False)
+    if not np.array_equal(s_lib[:k], np.array(sv, dtype=float) * scale):
+        ctx.label("svd_not_exact_skipped")
+        return
+    tails2 = [sum(x * x for x in sv[q:]) for q in range(k + 1)]          # exact integers, tails2[q] = energy discarded at size q
+    squares = [q for q in range(1, k) if int(round(tails2[q] ** 0.5)) ** 2 == tails2[q]]
+    if not squares:
+        ctx.label("no_square_tail_skipped")
+        return
+    qt = squares[case["q"] % len(squares)]
+    root = int(round(tails2[qt] ** 0.5))
+    off = case["off"]
+    rel = case["rel"] and case["routine"] == "skeleton"
+    # e exactly at the threshold (off = 0) or one ulp-scale step beside it
+    if rel:
+        if sv[0] & (sv[0] - 1):           # s/s[0] is exact only for a power-of-two leading value
+            rel = False
+    e_int = root
+    e = (e_int / sv[0] if rel else e_int * scale)
+    if off:
+        e = float(np.nextafter(e, e * (2 if off > 0 else 0)))
+    e2 = e_int * e_int
+    if off == 0:
+        expect = next(q for q in range(k + 1) if tails2[q] <= e2)
+    elif off > 0:
+        expect = next(q for q in range(k + 1) if tails2[q] <= e2)        # just above: same size as at the threshold
+    else:
+        expect = next(q for q in range(k + 1) if tails2[q] < e2)         # just below: the tail that equals e^2 no longer fits
+    expect = max(1, expect)
+    ctx.label("routine:" + case["routine"], f"rel={rel}", f"off={off}")
+    ctx.nontrivial(off == 0)
+    if case["routine"] == "skeleton":
+        U, V = ctx.lib(teneva.matrix_skeleton, A, e, 1e12, rel=rel, give_to=case["give_to"])
+        got = U.shape[1]
+    elif case["routine"] == "svd":
+        # matrix_svd works on eigenvalues of A A^T = squares of the singular values: exact integers times a power of four
+        U, V = ctx.lib(teneva.matrix_svd, A, e, 1e12)
+        got = U.shape[1]
+    else:
+        Y = ctx.lib(teneva.svd, A, e, 1e12)
+        got = Y[0].shape[2]
+    if case["routine"] == "svd":
+        w = np.linalg.eigvalsh(A @ A.T if m <= n else A.T @ A)
+        exact = np.array_equal(np.sort(w)[::-1][:k], (np.array(sv, dtype=float) * scale) ** 2)
+        if not exact:
+            ctx.label("eigh_not_exact_skipped")
+            return
+    ctx.check(got == expect, "inner size at an exact threshold is not the smallest one whose discarded tail energy is <= e",
+              got=int(got), expected=int(expect), svals=sv, e=e, tail_sq=tails2, off=off, rel=rel)
+
+
 SUBCHECKS = [
+    Sub("exact_ties", prop_ties, strategy=tie_cases, quick=150, thorough=1500),
     Sub("svd", prop_svd, strategy=svd_cases, quick=400, thorough=5000),
     Sub("svd_matrix", prop_matrix, strategy=matrix_cases, quick=60, thorough=600),
     Sub("factorisations", prop_fact, strategy=fact_cases, quick=600, thorough=8000),
